@@ -300,6 +300,10 @@ def getitem(base: T, idx: T) -> T:
         r_ = _rank_of(base.args[1])
         if r_ is not None and r_ == len(base.args[2].args) - 1:
             return base.args[1]            # broadcast_to(X, (k,) + X.shape)[i] is X: a new leading axis of copies
+    if base.op == "call" and base.args[0].op == "name" and base.args[0].args[0] in ("builtins.tuple", "builtins.list") and \
+            len(base.args) == 2 and base.args[1].op in ("attr", "sym", "getitem") and idx.op == "const" and \
+            isinstance(idx.args[0], int) and not isinstance(idx.args[0], bool):
+        return getitem(base.args[1], idx)          # tuple(seq)[k] is seq[k] (a field / argument / item that is a sequence)
     if idx.op == "call" and idx.args[0].op == "name" and idx.args[0].args[0].split(".")[-1] == "diag_indices" and \
             idx.args[0].args[0].split(".")[0] in ("jax", "numpy") and len(idx.args) == 2:
         return call(name(idx.args[0].args[0].rsplit(".", 1)[0] + ".diag"), base)     # M[diag_indices(n)] is diag(M)
@@ -1914,8 +1918,10 @@ class Evaluator:
         sub = self.new_frame(init, None, None)
         sub.caller = fr
         sub.self_class = ci.qualname
-        inst = sym(f"§new:{ci.name}:{line}")
         pp = init.pos_params()
+        # the object under construction carries the name of __init__'s first parameter, so that self.<x> read back inside
+        # __init__ finds what was just stored
+        inst = sym(pp[0].name) if pp else sym("self")
         binding = {pp[0].name: inst} if pp else {}
         for pname, m in mapping.items():
             binding[pname] = args[m[1]] if m[0] == "pos" else kwd[m[1]]
